@@ -1147,7 +1147,7 @@ theorem passes_spec (xs t0 : List Obj) (n : Nat)
 /-! ### at most one symlink of a flat archive is above a location -/
 
 /-- the location of a symlinked directory is normalised: `child_nodes` tests the location followed by a slash -/
-def LocNorm (l : Str) : Prop := cnPrefix l = l ++ ['/']
+abbrev LocNorm (l : Str) : Prop := cnPrefix l = l ++ ['/']
 
 theorem slash_prefix_cases (u v p : Str) (hu : (u ++ ['/']) <+: p) (hv : (v ++ ['/']) <+: p) (hl : u.length ≤ v.length) :
     u = v ∨ (u ++ ['/']) <+: v := by
@@ -1463,5 +1463,285 @@ theorem missingDirs_spec (t : List Obj) (p : Str) :
   · rintro ⟨hno, h1, h2, e, he, ha⟩
     obtain ⟨j, hj, rfl⟩ := (mem_ancestors p e.loc).mp ha
     exact missingDirs_complete j _ t e he (by have := le_maxLocLen t e he; omega) hno h1 h2
+
+
+/-! ### `convert_archive` assembled -/
+
+/-- the final ordering of `convert_archive`: directories, then symlinks/fifos/devices (both by location), then
+the regular files in the order of their data sources in the archive -/
+def sort3 (t : List Obj) : List Obj :=
+  C28.sortBy Obj.loc (t.filter Obj.isDir) ++ C28.sortBy Obj.loc (t.filter fun o => !o.isDir && !o.isReg)
+    ++ sortByNat srcOf (t.filter Obj.isReg)
+
+theorem sort3_perm (t : List Obj) : (sort3 t).Perm t :=
+  (((C28.sortBy_perm _ _).append (C28.sortBy_perm _ _)).append (sortByNat_perm _ _)).trans (partition_perm t)
+
+theorem insertByNat_pairwise (key : Obj → Nat) (e : Obj) (l : List Obj) (h : l.Pairwise fun a b => key a ≤ key b) :
+    (insertByNat key e l).Pairwise fun a b => key a ≤ key b := by
+  induction l with
+  | nil => simp [insertByNat]
+  | cons x xs ih =>
+    rw [List.pairwise_cons] at h
+    unfold insertByNat
+    split
+    · rename_i hle
+      rw [List.pairwise_cons]
+      refine ⟨?_, List.pairwise_cons.mpr h⟩
+      intro y hy
+      rcases List.mem_cons.mp hy with rfl | hy
+      · exact hle
+      · exact Nat.le_trans hle (h.1 y hy)
+    · rename_i hnle
+      rw [List.pairwise_cons]
+      refine ⟨?_, ih h.2⟩
+      intro y hy
+      rcases List.mem_cons.mp ((insertByNat_perm key e xs).mem_iff.mp hy) with rfl | hy
+      · exact Nat.le_of_not_le hnle
+      · exact h.1 y hy
+
+theorem sortByNat_pairwise (key : Obj → Nat) (l : List Obj) : (sortByNat key l).Pairwise fun a b => key a ≤ key b := by
+  induction l with
+  | nil => simp [sortByNat]
+  | cons e r ih => exact insertByNat_pairwise key e _ ih
+
+theorem nodup_map_on {α β : Type} (f : α → β) (l : List α) (hl : l.Nodup)
+    (hf : ∀ a ∈ l, ∀ b ∈ l, f a = f b → a = b) : (l.map f).Nodup := by
+  induction l with
+  | nil => simp
+  | cons x r ih =>
+    rw [List.nodup_cons] at hl
+    rw [List.map_cons, List.nodup_cons]
+    refine ⟨?_, ih hl.2 (fun a ha b hb => hf a (by simp [ha]) b (by simp [hb]))⟩
+    intro hm
+    obtain ⟨y, hy, he⟩ := List.mem_map.mp hm
+    have := hf y (by simp [hy]) x (by simp) he
+    rw [this] at hy
+    exact hl.1 hy
+
+theorem nodup_of_nodup_map {α β : Type} (f : α → β) (l : List α) (h : (l.map f).Nodup) : l.Nodup := by
+  induction l with
+  | nil => simp
+  | cons x r ih =>
+    rw [List.map_cons, List.nodup_cons] at h
+    exact List.nodup_cons.mpr ⟨fun hx => h.1 (List.mem_map_of_mem hx), ih h.2⟩
+
+theorem dirNameN_prefix (k : Nat) (q : Str) : dirNameN k q <+: q := by
+  induction k with
+  | zero => exact List.prefix_refl _
+  | succ k ih => exact (dirName_prefix _).trans ih
+
+/-- removing the symlinks by location removes exactly the symlinks -/
+theorem setRemove_syms (raw : List Obj) (hlocs : (raw.map Obj.loc).Nodup) :
+    setRemove raw (raw.filter Obj.isSym) = raw.filter (fun o => !o.isSym) := by
+  unfold setRemove
+  apply List.filter_congr
+  intro x hx
+  cases hxs : x.isSym with
+  | true =>
+    have : (raw.filter Obj.isSym).any (·.loc == x.loc) = true :=
+      List.any_eq_true.mpr ⟨x, List.mem_filter.mpr ⟨hx, hxs⟩, by simp⟩
+    simp [this]
+  | false =>
+    have : (raw.filter Obj.isSym).any (·.loc == x.loc) = false := by
+      rw [List.any_eq_false]
+      intro s hs hk
+      have hsl : s.loc = x.loc := by simpa using hk
+      have heq := C28.key_inj_of_nodup Obj.loc raw hlocs s x (List.mem_filter.mp hs).1 hx hsl
+      have hss := (List.mem_filter.mp hs).2
+      rw [heq, hxs] at hss
+      cases hss
+    simp [this]
+
+/-- the archives `convert_relocates` speaks about: distinct locations; the symlinks sit at normalised locations
+and none of them is recorded below another one; `symsOf raw`.length resolution steps settle every location (no
+cycle: a chain that follows every symlink once is that long); different entries resolve to different places -/
+structure Relocatable (raw : List Obj) : Prop where
+  locs : (raw.map Obj.loc).Nodup
+  norm : ∀ s ∈ symsOf raw, LocNorm s.loc
+  flat : ∀ a ∈ symsOf raw, ∀ b ∈ symsOf raw, isChild a.loc b.loc = false
+  depth : ∀ e ∈ raw, stepLoc (symsOf raw) (resolveDir (symsOf raw).length (symsOf raw) e.loc) = none
+  inj : ∀ a ∈ raw, ∀ b ∈ raw,
+    resolveDir (symsOf raw).length (symsOf raw) a.loc = resolveDir (symsOf raw).length (symsOf raw) b.loc → a = b
+
+/-- the directories `add_missing_directories` creates for the set `t` -/
+def addedDirs (t : List Obj) : List Str := (missingDirs (maxLocLen t + 1) t).eraseDups
+
+theorem convert_flat (raw : List Obj) (h : Relocatable raw) :
+    ∃ t1, (t1.map Obj.loc).Nodup ∧ (∀ o, o ∈ t1 ↔ ∃ e ∈ raw, o = placeOf raw e) ∧
+      ((t1 ++ (addedDirs t1).map newDir).map Obj.loc).Nodup ∧
+      convertArchive raw = some (sort3 (t1 ++ (addedDirs t1).map newDir)) := by
+  have hsub : ∀ x ∈ symsOf raw, x ∈ raw := fun x hx => (List.mem_filter.mp hx).1
+  have hset : setOf raw = raw := setOf_nodup raw h.locs
+  have hsymsub : ((raw.filter Obj.isSym).map Obj.loc).Nodup := (List.filter_sublist.map Obj.loc).nodup h.locs
+  have hsyms : setOf (raw.filter Obj.isSym) = raw.filter Obj.isSym := setOf_nodup _ hsymsub
+  have hnoc : ∀ x ∈ raw.filter Obj.isSym, childNodes (raw.filter Obj.isSym) x.loc = [] := by
+    intro x hx
+    unfold childNodes
+    rw [List.filter_eq_nil_iff]
+    intro y hy
+    simp [h.flat x hx y hy]
+  have hperm : (raw.filter (fun o => !o.isSym) ++ raw.filter Obj.isSym).Perm raw :=
+    List.perm_append_comm.trans (List.filter_append_perm Obj.isSym raw)
+  have hupd : setUpdate (raw.filter (fun o => !o.isSym)) (raw.filter Obj.isSym)
+      = raw.filter (fun o => !o.isSym) ++ raw.filter Obj.isSym :=
+    setUpdate_fresh _ _ ((hperm.map Obj.loc).nodup_iff.mpr h.locs)
+  -- the order of the pass and the order of the archive pick the same symlink
+  have hxs : ((C28.sortBy Obj.loc (raw.filter Obj.isSym)).reverse).Perm (symsOf raw) :=
+    (List.reverse_perm _).trans (C28.sortBy_perm Obj.loc _)
+  have hstep : ∀ p, stepLoc (symsOf raw) p = stepLoc ((C28.sortBy Obj.loc (raw.filter Obj.isSym)).reverse) p := by
+    intro p
+    unfold stepLoc
+    rw [find?_perm_unique _ _ _ hxs.symm (fun a ha b hb pa pb =>
+      ancestor_sym_unique (symsOf raw) h.norm h.flat
+        (fun a ha b hb e => C28.key_inj_of_nodup Obj.loc raw h.locs a b (hsub a ha) (hsub b hb) e) p a b ha hb pa pb)]
+  have hres : ∀ n p, resolveDir n (symsOf raw) p = resolveDir n ((C28.sortBy Obj.loc (raw.filter Obj.isSym)).reverse) p :=
+    fun n p => resolveDir_congr n _ _ hstep p
+  have hlen : ((C28.sortBy Obj.loc (raw.filter Obj.isSym)).reverse).length = (symsOf raw).length := hxs.length_eq
+  have hpass := passes_spec ((C28.sortBy Obj.loc (raw.filter Obj.isSym)).reverse)
+    (raw.filter (fun o => !o.isSym) ++ raw.filter Obj.isSym)
+    ((C28.sortBy Obj.loc (raw.filter Obj.isSym)).reverse).length
+    (by
+      intro e1 h1 e2 h2 he
+      rw [← hres, ← hres, hlen] at he
+      exact h.inj e1 (hperm.mem_iff.mp h1) e2 (hperm.mem_iff.mp h2) he)
+    (by
+      intro e he
+      rw [← hres, ← hstep, hlen]
+      exact h.depth e (hperm.mem_iff.mp he))
+    (((C28.sortBy Obj.loc (raw.filter Obj.isSym)).reverse).length + 1) 0 _ (by omega)
+    ((hperm.map Obj.loc).nodup_iff.mpr h.locs)
+    (by
+      intro o
+      constructor
+      · intro ho; exact ⟨o, ho, by simp [resolveDir, withLoc_self]⟩
+      · rintro ⟨e, he, rfl⟩; simpa [resolveDir, withLoc_self] using he)
+  refine ⟨_, hpass.1, ?_, ?_⟩
+  · intro o
+    rw [hpass.2 o]
+    constructor
+    · rintro ⟨e, he, rfl⟩
+      exact ⟨e, hperm.mem_iff.mp he, by unfold placeOf; rw [hres, hlen]⟩
+    · rintro ⟨e, he, rfl⟩
+      exact ⟨e, hperm.mem_iff.mpr he, by unfold placeOf; rw [hres, hlen]⟩
+  · unfold convertArchive
+    simp only [hset, hsyms, symLoop_stable _ _ hnoc, setRemove_syms raw h.locs, hupd]
+    generalize relocatePasses _ _ _ = t1 at hpass ⊢
+    have hfreshlocs : ((t1 ++ (addedDirs t1).map newDir).map Obj.loc).Nodup := by
+      rw [List.map_append, List.nodup_append]
+      refine ⟨hpass.1, ?_, ?_⟩
+      · rw [List.map_map]
+        have : (Obj.loc ∘ newDir) = id := by funext p; rfl
+        rw [this, List.map_id]
+        exact nodup_eraseDups _
+      · intro a ha b hb e
+        rw [List.map_map] at hb
+        obtain ⟨p, hp, rfl⟩ := List.mem_map.mp hb
+        have hp' := List.mem_eraseDups.mp hp
+        have := (missingDirs_sound _ t1 p hp').1
+        have e' : a = p := e
+        rw [e'] at ha
+        exact this ha
+    refine ⟨hfreshlocs, ?_⟩
+    rw [show setUpdate t1 (List.map newDir (missingDirs (maxLocLen t1 + 1) t1).eraseDups) = t1 ++ (addedDirs t1).map newDir
+      from setUpdate_fresh _ _ hfreshlocs]
+    rfl
+
+
+/-- everything the relocation theorems state, in one piece -/
+theorem convert_flat_full (raw : List Obj) (h : Relocatable raw) :
+    ∃ (R : List Obj) (added : List Str), convertArchive raw = some R ∧
+      R.Perm (raw.map (placeOf raw) ++ added.map newDir) ∧
+      (R.map Obj.loc).Nodup ∧ added.Nodup ∧
+      (∀ p, p ∈ added ↔ p ∉ (raw.map (placeOf raw)).map Obj.loc ∧ p ≠ ['/'] ∧ p ≠ [] ∧
+        ∃ e ∈ raw, p ∈ ancestors (placeOf raw e).loc) ∧
+      (∀ e ∈ raw, stepLoc (symsOf raw) e.loc = none → e ∈ R) ∧
+      (∀ s ∈ R, s.isSym = true → ∀ o ∈ R, isChild s.loc o.loc = false) := by
+  obtain ⟨t1, hnd, hmem, hnd2, hconv⟩ := convert_flat raw h
+  have hR : (sort3 (t1 ++ (addedDirs t1).map newDir)).Perm (t1 ++ (addedDirs t1).map newDir) := sort3_perm _
+  have hinjP : ∀ a ∈ raw, ∀ b ∈ raw, placeOf raw a = placeOf raw b → a = b := by
+    intro a ha b hb e
+    have := congrArg Obj.loc e
+    unfold placeOf at this
+    rw [withLoc_loc, withLoc_loc] at this
+    exact h.inj a ha b hb this
+  have ht1 : t1.Perm (raw.map (placeOf raw)) := by
+    rw [List.perm_ext_iff_of_nodup (nodup_of_nodup_map _ _ hnd) (nodup_map_on _ raw (nodup_of_nodup_map _ _ h.locs) hinjP)]
+    intro o
+    rw [hmem o, List.mem_map]
+    constructor
+    · rintro ⟨e, he, rfl⟩; exact ⟨e, he, rfl⟩
+    · rintro ⟨e, he, rfl⟩; exact ⟨e, he, rfl⟩
+  have hlocmem : ∀ p, p ∈ t1.map Obj.loc ↔ p ∈ (raw.map (placeOf raw)).map Obj.loc := fun p => (ht1.map Obj.loc).mem_iff
+  -- the symlinks of the result are the symlinks of the archive, where they were
+  have hsymfix : ∀ e ∈ symsOf raw, stepLoc (symsOf raw) e.loc = none := by
+    intro e he
+    unfold stepLoc
+    have : (symsOf raw).find? (fun s => isChild s.loc e.loc) = none := by
+      rw [List.find?_eq_none]
+      intro a ha
+      simp [h.flat a ha e he]
+    rw [this]; rfl
+  have hplace_id : ∀ e, stepLoc (symsOf raw) e.loc = none → placeOf raw e = e := by
+    intro e he
+    unfold placeOf
+    rw [resolveDir_settled _ _ _ he, withLoc_self]
+  -- nothing that was placed lies below a symlink of the archive
+  have hsettled : ∀ o ∈ t1, ∀ s ∈ symsOf raw, isChild s.loc o.loc = false := by
+    intro o ho s hs
+    obtain ⟨e, he, rfl⟩ := (hmem o).mp ho
+    have hd := h.depth e he
+    unfold placeOf
+    rw [withLoc_loc]
+    unfold stepLoc at hd
+    cases hf : (symsOf raw).find? (fun s => isChild s.loc (resolveDir (symsOf raw).length (symsOf raw) e.loc)) with
+    | some x => rw [hf] at hd; cases hd
+    | none =>
+      rw [List.find?_eq_none] at hf
+      simpa using hf s hs
+  refine ⟨_, addedDirs t1, hconv, hR.trans (List.Perm.append_right _ ht1), (hR.map Obj.loc).nodup_iff.mpr hnd2,
+    nodup_eraseDups _, ?_, ?_, ?_⟩
+  · intro p
+    unfold addedDirs
+    rw [List.mem_eraseDups, missingDirs_spec, hlocmem p]
+    constructor
+    · rintro ⟨h0, h1, h2, o, ho, ha⟩
+      obtain ⟨e, he, rfl⟩ := (hmem o).mp ho
+      exact ⟨h0, h1, h2, e, he, ha⟩
+    · rintro ⟨h0, h1, h2, e, he, ha⟩
+      exact ⟨h0, h1, h2, _, (hmem _).mpr ⟨e, he, rfl⟩, ha⟩
+  · intro e he hs
+    apply hR.mem_iff.mpr
+    apply List.mem_append_left
+    exact (hmem e).mpr ⟨e, he, (hplace_id e hs).symm⟩
+  · intro s hs hsym o ho
+    have hs' := List.mem_append.mp (hR.mem_iff.mp hs)
+    have hsF : s ∈ symsOf raw := by
+      rcases hs' with hs' | hs'
+      · obtain ⟨e, he, rfl⟩ := (hmem s).mp hs'
+        unfold placeOf at hsym
+        rw [withLoc_isSym] at hsym
+        have heF : e ∈ symsOf raw := List.mem_filter.mpr ⟨he, hsym⟩
+        rw [hplace_id e (hsymfix e heF)]
+        exact heF
+      · obtain ⟨p, _, rfl⟩ := List.mem_map.mp hs'
+        simp [newDir, Obj.isSym] at hsym
+    rcases List.mem_append.mp (hR.mem_iff.mp ho) with ho | ho
+    · exact hsettled o ho s hsF
+    · obtain ⟨p, hp, rfl⟩ := List.mem_map.mp ho
+      obtain ⟨_, _, _, e1, he1, j, hj⟩ := missingDirs_sound _ t1 p (List.mem_eraseDups.mp hp)
+      cases hc : isChild s.loc (newDir p).loc with
+      | false => rfl
+      | true =>
+        have hpre : (cnPrefix s.loc) <+: e1.loc := by
+          unfold isChild at hc
+          rw [List.isPrefixOf_iff_prefix] at hc
+          have hpp : (newDir p).loc = dirNameN (j + 1) e1.loc := hj
+          rw [hpp] at hc
+          exact hc.trans (dirNameN_prefix _ _)
+        have := hsettled e1 he1 s hsF
+        unfold isChild at this
+        rw [← List.isPrefixOf_iff_prefix] at hpre
+        rw [hpre] at this
+        cases this
 
 end Pkgcore.C25
